@@ -96,7 +96,7 @@ func (m *Module) Configure(w *engine.World, r *engine.Rand) any {
 	}
 	c.MaxInterval = []int64{0, 1, 3, 10, 30}[r.Intn(5)]
 	c.POracle = []float64{0.15, 0.3, 0.5, 0.8}[r.Intn(4)]
-	c.PCluster = 0.6 * r.Float()
+	c.PCluster = 0.2 + 0.6*r.Float()
 	c.PTimed = r.Float()
 	if r.Bool(0.3) {
 		c.PFar = 0.05
@@ -249,7 +249,7 @@ func (m *Module) Gen(w *engine.World, r *engine.Rand) *engine.TxPlan {
 		a.Interval = uint64(1000 + r.Int63n(1_000_000))
 	}
 	provs := m.randomProviders(w)
-	if r.Bool(m.cfg.POracle) && (len(provs) > 0 || r.Bool(0.1)) {
+	mkOracle := func() {
 		a.Oracle = true
 		maxPrice := new(big.Int)
 		for _, p := range provs {
@@ -273,6 +273,9 @@ func (m *Module) Gen(w *engine.World, r *engine.Rand) *engine.TxPlan {
 			a.FeeCap = new(big.Int).Add(w.Bal(w.A(who).Addr.String(), Std), big.NewInt(1+r.Int63n(1000))).String()
 		}
 	}
+	if r.Bool(m.cfg.POracle) && (len(provs) > 0 || r.Bool(0.1)) {
+		mkOracle()
+	}
 	tp := engine.Tx1(engine.NewOp(Name, "request", who, a))
 	// The id scheme identifies a request by (requester, height): at most one request per
 	// requester per block. Timed requests go to a height of their own; an untimed one (left to
@@ -295,25 +298,47 @@ func (m *Module) Gen(w *engine.World, r *engine.Rand) *engine.TxPlan {
 		return nil
 	case timed || future:
 		at := w.Height + 1 + int64(r.Intn(4))
-		if r.Bool(m.cfg.PCluster) {
-			// aim at a due height other pending requests already have
-			var dues []int64
-			for _, k := range engine.SortedKeys(m.queue) {
-				if q := m.queue[k]; q.Due > at && q.Due-at <= m.cfg.MaxInterval {
-					dues = append(dues, q.Due)
-				}
-			}
-			if len(dues) > 0 {
-				a.Interval = uint64(dues[r.Intn(len(dues))] - at)
-				tp = engine.Tx1(engine.NewOp(Name, "request", who, a))
-			}
-		}
 		for i := 0; i < 6 && m.planned[who][at]; i++ {
 			at++
 		}
 		if m.planned[who][at] {
 			return nil
 		}
+		if r.Bool(m.cfg.PCluster) {
+			// aim at a due height other pending requests already have - and, mostly, with the
+			// other kind: plain and oracle-seeded requests falling due together
+			var dues []int64
+			kinds := map[int64][2]bool{}
+			for _, k := range engine.SortedKeys(m.queue) {
+				q := m.queue[k]
+				if q.Due < at || q.Due-at > m.cfg.MaxInterval {
+					continue
+				}
+				if _, seen := kinds[q.Due]; !seen {
+					dues = append(dues, q.Due)
+				}
+				kk := kinds[q.Due]
+				if e := m.reqs[q.ID]; e != nil && e.Oracle {
+					kk[1] = true
+				} else {
+					kk[0] = true
+				}
+				kinds[q.Due] = kk
+			}
+			if len(dues) > 0 {
+				d := dues[r.Intn(len(dues))]
+				a.Interval = uint64(d - at)
+				if kk := kinds[d]; kk[0] != kk[1] && r.Bool(0.75) {
+					switch {
+					case kk[1]: // only oracle requests wait there: add a plain one
+						a.Oracle, a.FeeCap = false, ""
+					case len(provs) > 0 && !a.Oracle:
+						mkOracle()
+					}
+				}
+			}
+		}
+		tp = engine.Tx1(engine.NewOp(Name, "request", who, a))
 		m.planned[who][at] = true
 		tp.At = at
 	default:
